@@ -66,7 +66,7 @@ def gen_deflate(tier, rng):
     # stream in the same call: the finish kernels emit the last bytes as literals and the end-of-block token behind them; the level buffer ends
     # directly before an inaccessible page
     rnd = igz.corpus(rng, "random", 7100)
-    for n in (range(1500, 3500) if tier == "quick" else range(1, 5300)):
+    for n in (range(1500, 3500) if tier == "quick" else range(1, 4200)):
         for level in ((1, 2, 3) if n % 2 == 0 else (1, 2)):
             add(api="deflate", inp=rnd[:n], level=level, wrap=0, lbuf=0, mem=1, calls=[[n, n + 200, [0, 1, 2][n % 3], 1]], tail_ao=1 << 16, cap=40, meta={"family": "every-length-minimal-level-buffer"})
             if n % 3 == 0:
